@@ -413,6 +413,38 @@ impl World {
                     let r = self.doms[d.unwrap()].as_mut().unwrap().insert(p, b);
                     json!(self.spec_ref(r))
                 }
+                "bad" => {
+                    // calls the documentation promises to refuse; r = 0 stands for Ref::none() (root of a rootless DOM)
+                    let r = self.real(op["r"].as_i64().unwrap());
+                    let d = d.unwrap();
+                    match op["kind"].as_str().unwrap() {
+                        "destroy_root" | "destroy_missing" => self.doms[d].as_mut().unwrap().destroy(r),
+                        "transfer_root" => {
+                            let e = 1 - d;
+                            let p = self.real(op["p"].as_i64().unwrap());
+                            let (src, dst) = self.two_doms(d, e);
+                            src.transfer(r, dst, p);
+                        }
+                        "transfer_within_root" | "transfer_within_missing" => {
+                            let p = self.real(op["p"].as_i64().unwrap());
+                            self.doms[d].as_mut().unwrap().transfer_within(r, p);
+                        }
+                        "descendants_of_missing" => {
+                            let n = self.doms[d].as_ref().unwrap().descendants_of(r).take(3).count();
+                            return json!(n);
+                        }
+                        "clone_missing" => {
+                            if op["p"].as_i64().unwrap() % 2 == 0 {
+                                self.doms[d].as_mut().unwrap().clone_within(r);
+                            } else {
+                                let (src, dst) = self.two_doms(d, 1 - d);
+                                src.clone_into_external(r, dst);
+                            }
+                        }
+                        other => panic!("unknown bad kind {}", other),
+                    }
+                    json!(null)
+                }
                 "destroy" => {
                     let r = self.real(op["r"].as_i64().unwrap());
                     self.doms[d.unwrap()].as_mut().unwrap().destroy(r);
@@ -616,7 +648,7 @@ pub fn run(max_ref: usize, num_slots: usize, input: &mut dyn BufRead, out: &mut 
             for ev in evs {
                 emit(out, &ep, ev);
             }
-            if panicked && op["op"] != "transfer_within_bad" && op["op"] != "insert_collide" {
+            if panicked && op["op"] != "transfer_within_bad" && op["op"] != "insert_collide" && op["op"] != "bad" {
                 break;
             }
             if !w.still_a_forest() {
@@ -644,7 +676,31 @@ fn random_steps(w: &mut World, rng: &mut StdRng, steps: usize, uid_pool: i64, la
             if live.is_empty() && room < 1 {
                 continue;
             }
-            let op = if (choice < 25 || live.is_empty()) && room >= 1 {
+            let op = if rng.gen_bool(0.04) {
+                // a call outside the documented preconditions: refused with a panic, nothing changes
+                let kinds = ["destroy_root", "transfer_root", "transfer_within_root", "destroy_missing", "transfer_within_missing",
+                             "descendants_of_missing", "clone_missing"];
+                let kind = kinds[rng.gen_range(0..kinds.len())];
+                let other_live = w.live(1 - d);
+                let p = match kind {
+                    "transfer_root" if !other_live.is_empty() => other_live[rng.gen_range(0..other_live.len())],
+                    "transfer_root" => continue,
+                    "clone_missing" => rng.gen_range(0..2),
+                    _ if !live.is_empty() => live[rng.gen_range(0..live.len())],
+                    _ => continue,
+                };
+                let r = if kind.ends_with("_root") {
+                    root
+                } else {
+                    // a referent this DOM does not hold: destroyed earlier, or living in the other DOM
+                    let absent: Vec<i64> = (1..=w.refs.len() as i64).filter(|x| !live.contains(x)).collect();
+                    if absent.is_empty() {
+                        continue;
+                    }
+                    absent[rng.gen_range(0..absent.len())]
+                };
+                json!({"op": "bad", "kind": kind, "d": d + 1, "r": r, "p": p})
+            } else if (choice < 25 || live.is_empty()) && room >= 1 {
                 // now and then a builder with many children under one node (6-7), the others small
                 let b = if room >= 8 && rng.gen_bool(0.12) {
                     { let n = rng.gen_range(7..=8); wide_builder(w, rng, lab, n, uid_pool) }
@@ -744,7 +800,7 @@ fn random_steps(w: &mut World, rng: &mut StdRng, steps: usize, uid_pool: i64, la
             for ev in evs {
                 emit(out, ep, ev);
             }
-            if panicked && op["op"] != "transfer_within_bad" && op["op"] != "insert_collide" {
+            if panicked && op["op"] != "transfer_within_bad" && op["op"] != "insert_collide" && op["op"] != "bad" {
                 break;
             }
             if !w.still_a_forest() {
